@@ -167,6 +167,8 @@ impl<'a> SendBlocksProofProcess<'a> {
                 let block_hashes: Vec<packed::Byte32> =
                     headers.iter().map(|header| header.hash()).collect();
                 {
+                    #[cfg(nervosnetwork_ckb_light_client_verif)]
+                    crate::verif_hooks::lock_event("blocks_proof");
                     let mut matched_blocks = self
                         .protocol
                         .peers()
